@@ -1879,6 +1879,22 @@ class MultiSpeciesLattice(Lattice):
             pairs=new_pairs,
         )
 
+    def save_hdf5(self, hdf5_saver, h5gr, subpath):
+        super().save_hdf5(hdf5_saver, h5gr, subpath)
+        hdf5_saver.save(self.simple_lattice, subpath + 'simple_lattice')
+        hdf5_saver.save(self.species_names, subpath + 'species_names')
+
+    @classmethod
+    def from_hdf5(cls, hdf5_loader, h5gr, subpath):
+        obj = super().from_hdf5(hdf5_loader, h5gr, subpath)
+        obj.simple_lattice = hdf5_loader.load(subpath + 'simple_lattice')
+        obj.species_names = hdf5_loader.load(subpath + 'species_names')
+        obj.N_species = len(obj.species_names)
+        obj.simple_Lu = obj.simple_lattice.Lu
+        if obj.simple_Lu is None:
+            obj.simple_Lu = len(obj.simple_lattice.unit_cell)
+        return obj
+
     def _generate_new_pairs(self):
         N_sp = self.N_species
         names = self.species_names
